@@ -14,6 +14,7 @@ type Term struct {
 	S    string
 	Sort string
 	T    types.Type
+	Pat  string // E-matching trigger to attach to the enclosing quantifier (set by trig())
 }
 
 const (
@@ -261,6 +262,8 @@ const baseDecls = `(declare-sort Str 0)
 (declare-datatypes ((Slice 0)) (((mkslice (sbase Int) (soff Int) (slen_ Int) (scap Int)))))
 (declare-fun own (Int) Int)
 (declare-fun rkind (Int) Int)
+(declare-fun sidx (Slice Int) Int)
+(assert (forall ((s Slice) (j Int)) (! (= (sidx s j) (+ (soff s) j)) :pattern ((sidx s j)))))
 (assert (= (own 0) 0))
 (assert (= (slen sempty) 0))
 (assert (forall ((s Str)) (! (and (>= (slen s) 0) (<= (slen s) 9223372036854775807)) :pattern ((slen s)))))
